@@ -43,6 +43,10 @@ def classify_raise(prog, stage: str, exc: BaseException) -> str:
     return f"{stage}-raises:{cls}"
 
 
+def tolerance(prog) -> float:
+    return 1e-4 if any(n["op"] in ("Gelu", "DFT") for n in prog["nodes"]) else 1e-6
+
+
 def run_case(prog, style: str, rseed: int, bindings, specs=None, use_reference=False):
     """Write `prog` in Python (`style`, `rseed`), build it, and judge the result with the model-free
     oracle.  Returns a dict: fail = (key, what) | None; model, emission, problems, realised, stats."""
@@ -88,7 +92,7 @@ def run_case(prog, style: str, rseed: int, bindings, specs=None, use_reference=F
         ok_ref = True
         for b, (want, ws) in zip(bindings, specs):
             s2, got = L.run_reference(model, {f"in{k}": v for k, v in b.items()})
-            if s2 != "ok" or any(L.same_value(g, want[oi]) for g, oi in zip(got, pos)):
+            if s2 != "ok" or any(L.same_value(g, want[oi], tolerance(prog)) for g, oi in zip(got, pos)):
                 ok_ref = False
         if ok_ref:
             out["notes"].append("runtime-unsupported: " + sess[:120])
@@ -106,13 +110,13 @@ def run_case(prog, style: str, rseed: int, bindings, specs=None, use_reference=F
             # the model and gets the dataflow's values (then the defect is the runtime's, e.g. its
             # mandatory duplicate-Cast removal losing implicit inputs of bodies)
             s3, got2 = L.run_reference(model, feeds)
-            if s3 == "ok" and not any(L.same_value(g, want[oi]) for g, oi in zip(got2, pos)):
+            if s3 == "ok" and not any(L.same_value(g, want[oi], tolerance(prog)) for g, oi in zip(got2, pos)):
                 out["notes"].append("runtime-unsupported: " + got[:100])
                 continue
             out["fail"] = ("runtime-fails", f"onnxruntime run: {got[:200]}")
             return out
         for g, oi in zip(got, pos):
-            d = L.same_value(g, want[oi])
+            d = L.same_value(g, want[oi], tolerance(prog))
             if d:
                 out["fail"] = ("wrong-value", f"output out{oi} on binding {bi}: onnxruntime vs dataflow: {d[:200]}")
                 return out
@@ -121,7 +125,7 @@ def run_case(prog, style: str, rseed: int, bindings, specs=None, use_reference=F
             s3, got2 = L.run_reference(model, feeds)
             if s3 == "ok":
                 for g, oi in zip(got2, pos):
-                    if L.same_value(g, want[oi]):
+                    if L.same_value(g, want[oi], tolerance(prog)):
                         out["notes"].append("onnx.reference differs (secondary runtime only)")
             else:
                 out["notes"].append("onnx.reference could not run the model: " + got2[:80])
@@ -190,7 +194,7 @@ def run(ck: core.Check):
         ck.leanchecker(["SpoxModel.Props.C01"])
 
     rng = ck.rng
-    n_random = ck.pick(1100, 8000)
+    n_random = ck.pick(900, 8000)
     n_styles = ck.pick(3, 4)
     n_bind = 3
     skel_uses = ck.pick(3, 6)
@@ -201,22 +205,19 @@ def run(ck: core.Check):
         programs.append((prog, "skeleton:" + tag))
     for prog, tag in L.skeleton2_programs(ck.pick(2, 4)):
         programs.append((prog, "skeleton2:" + tag))
+    for prog, tag in L.skeleton3_programs(ck.pick(2, 3), ck.pick(1, 2)):
+        programs.append((prog, "skeleton3:" + tag))
+    for prog, tag in L.skeleton4_programs(pairs=True):
+        programs.append((prog, "skeleton4:" + tag))
     n_skel = len(programs)
     for i in range(n_random):
         size = rng.choice([8, 12, 16, 20, 26, 32, 40])
-        programs.append((L.gen_program(random.Random(rng.getrandbits(48)), size=size, max_depth=rng.choice([2, 3, 3, 4])), "random"))
+        # one opset per program: 17 / 18 may contain Loop and (17) explicit-size Split; at 19-21 Loop outputs
+        # have no known rank (outside the premise), so those programs nest through If and Scan only
+        programs.append((L.gen_program(random.Random(rng.getrandbits(48)), size=size, max_depth=rng.choice([2, 3, 3, 4]),
+                                       opset=rng.choice([17, 17, 17, 18, 18, 19, 20, 21])), "random"))
 
-    # one opset per program: 17 / 18 always; 19-21 only without Loop (there Loop outputs have no known
-    # rank, so the program falls outside the property's premise)
-    hist_opset = collections.Counter()
-    for prog, _ in programs:
-        has_loop = any(n["op"] == "Loop" for n in prog["nodes"])
-        # (a Split with explicit sizes cannot be written at opset >= 18: listed finding split18-explicit-sizes)
-        if any(n["op"] == "Split" and n["ins"][1] is not None for n in prog["nodes"]):
-            prog["opset"] = 17
-        else:
-            prog["opset"] = rng.choice([17, 17, 18] if has_loop else [17, 18, 19, 20, 21])
-        hist_opset[prog["opset"]] += 1
+    hist_opset = collections.Counter(p_["opset"] for p_, _ in programs)
     hist_ops = collections.Counter()
     hist_depth = collections.Counter()
     hist_style = collections.Counter()
@@ -238,7 +239,10 @@ def run(ck: core.Check):
         hist_depth[d] += 1
         for n in prog["nodes"]:
             hist_ops[n["op"]] += 1
-        styles = skel_styles if origin.startswith("skeleton") else rng.sample(L.STYLES, n_styles)
+        if origin.startswith("skeleton4"):
+            styles = ["lazy", "eager"] if not ck.thorough else skel_styles
+        else:
+            styles = skel_styles if origin.startswith("skeleton") else rng.sample(L.STYLES, n_styles)
         skey = struct_key(prog)
         for style in styles:
             rseed = rng.getrandbits(32)
